@@ -393,12 +393,14 @@ def norm_family(which):
   eps = sym.scalar('eps', 0.25)
   extra = [eps.t > 0]
   with SymEnv():
-    if which == 0:      # statistics lemma: _compute_stats == definition
-      for xs, red, use_mean, fast, masked in [
+    if which == 0 or which >= 100:   # statistics lemma: _compute_stats == definition
+      for ci, (xs, red, use_mean, fast, masked) in enumerate([
           ((2, 3), (-1,), True, True, False), ((2, 3), (-1,), True, False, False),
           ((2, 2, 2), (-2, -1), True, True, False), ((3, 2), (0,), True, True, False),
           ((2, 3), (-1,), False, True, False), ((2, 3), (-1,), True, True, True),
-          ((2, 3), (-1,), True, False, True)]:
+          ((2, 3), (-1,), True, False, True)]):
+        if which >= 100 and ci != which - 100:
+          continue
         x = A.sym('x', xs)
         m = A.sym('m', xs, 'bool') if masked else None
         if masked and sym.CONCRETE['on']:
@@ -858,9 +860,17 @@ def obligations(tier):
     obs.append(Ob('formula_' + nm, _fam('dense_family'), dict(which=I(w, w)), kind='smt', replay=replay_family,
                   split=('which',), timeout=900, funcs=F1,
                   bounds='shapes <= 2x2x3, batch dims 0..2, bias on/off'))
+  for ci in range(7):
+    obs.append(Ob('formula_norm_statistics_lemma_cfg%d' % ci, _fam('norm_family'),
+                  dict(which=I(100 + ci, 100 + ci)), kind='smt',
+                  replay=replay_family, split=('which',), timeout=900, funcs=F2,
+                  bounds='_compute_stats (Linen and NNX) == definition; configs: '
+                         'fast / two-pass variance, use_mean, multi-axis, masked'))
   for w, nm in enumerate(['norm_statistics_lemma', 'batch_norm',
                           'layer_rms_norm_given_statistics',
                           'group_instance_norm_given_statistics']):
+    if w == 0:
+      continue
     obs.append(Ob('formula_' + nm, _fam('norm_family'), dict(which=I(w, w)), kind='smt', replay=replay_family,
                   split=('which',), timeout=900, funcs=F2,
                   bounds='shapes <= 2x2x2 / 3x2, symbolic epsilon>0 and momentum'))
